@@ -262,6 +262,29 @@ func (c *Ctx) sliceObligations(eng *ranges.Engine, funcs map[*ssa.Function]bool,
 	return st
 }
 
+// sameExpr: two SSA values denote the same pure integer expression (go/ssa performs no common
+// subexpression elimination, so `1+i*2` written twice is two instructions).
+func sameExpr(a, b ssa.Value, depth int) bool {
+	if a == b {
+		return true
+	}
+	if depth > 6 || a == nil || b == nil {
+		return false
+	}
+	switch x := a.(type) {
+	case *ssa.Const:
+		y, ok := b.(*ssa.Const)
+		return ok && x.Value != nil && y.Value != nil && types.Identical(x.Type(), y.Type()) && x.Value.ExactString() == y.Value.ExactString()
+	case *ssa.BinOp:
+		y, ok := b.(*ssa.BinOp)
+		return ok && x.Op == y.Op && sameExpr(x.X, y.X, depth+1) && sameExpr(x.Y, y.Y, depth+1)
+	case *ssa.Convert:
+		y, ok := b.(*ssa.Convert)
+		return ok && types.Identical(x.Type(), y.Type()) && sameExpr(x.X, y.X, depth+1)
+	}
+	return false
+}
+
 // lenLowerOfValue: a lower bound on len(v) derivable from how v was made (make with a bounded
 // size, a slice field whose every assignment has a bounded size).
 func (c *Ctx) lenLowerOfValue(eng *ranges.Engine, fn *ssa.Function, v ssa.Value, b *ssa.BasicBlock, depth int) (int64, bool) {
@@ -275,6 +298,43 @@ func (c *Ctx) lenLowerOfValue(eng *ranges.Engine, fn *ssa.Function, v ssa.Value,
 			return av.Lo(), true
 		}
 		return 0, true
+	case *ssa.Slice:
+		// a slice expression that did not panic has exactly high-low elements
+		if _, isStr := x.X.Type().Underlying().(*types.Basic); isStr {
+			return 0, false
+		}
+		lo := int64(0)
+		loConst := x.Low == nil
+		if k, ok := x.Low.(*ssa.Const); ok && k.Value != nil {
+			lo, loConst = k.Int64(), true
+		}
+		if x.High == nil {
+			if !loConst {
+				return 0, false
+			}
+			m, ok := c.lenLowerOfValue(eng, fn, x.X, b, depth+1)
+			if _, isArr := x.X.Type().Underlying().(*types.Pointer); isArr {
+				if at, ok2 := x.X.Type().Underlying().(*types.Pointer).Elem().Underlying().(*types.Array); ok2 {
+					m, ok = at.Len(), true
+				}
+			}
+			if !ok || m < lo {
+				return 0, ok
+			}
+			return m - lo, true
+		}
+		if k, ok := x.High.(*ssa.Const); ok && k.Value != nil && loConst {
+			return k.Int64() - lo, true
+		}
+		if bo, ok := x.High.(*ssa.BinOp); ok && bo.Op == token.ADD && x.Low != nil {
+			if k, ok := bo.Y.(*ssa.Const); ok && k.Value != nil && sameExpr(bo.X, x.Low, 0) && k.Int64() >= 0 {
+				return k.Int64(), true
+			}
+			if k, ok := bo.X.(*ssa.Const); ok && k.Value != nil && sameExpr(bo.Y, x.Low, 0) && k.Int64() >= 0 {
+				return k.Int64(), true
+			}
+		}
+		return 0, false
 	case *ssa.UnOp:
 		if x.Op != token.MUL {
 			return 0, false
